@@ -1,8 +1,8 @@
 #!/bin/bash
 # tools/check_seeds.sh seed-dir... : detection-only pass. One shared worktree + one shared target dir, so each seed costs an
 # incremental rebuild of the patched crate(s) plus the quick check of its property. Writes <seed>/quickcheck.txt.
-WT=/tmp/seedchk-wt
-T=/verif/target-seedchk
+WT=${SEEDCHK_WT:-/tmp/seedchk-wt}
+T=${SEEDCHK_T:-/verif/target-seedchk}
 [ -d $T ] || cp -a /verif/target $T
 git -C /repo worktree remove --force $WT >/dev/null 2>&1
 git -C /repo worktree add -q --detach $WT HEAD || exit 2
